@@ -295,8 +295,11 @@ def run_case(case, ctx):
 			json.loads(buf.getvalue(), parse_constant=bad_const)
 		except ValueError as e:
 			raise Violation('json_invalid', f'archive export is not valid JSON: {e}', case)
+		# several reader objects live side by side (one per open database in a service): the one created FIRST does the reading
+		reader1 = ResultsArchiveReader(db.session)
+		reader_newer = ResultsArchiveReader(db.session)
 		try:
-			back = ResultsArchiveReader(db.session).read(io.StringIO(buf.getvalue()))
+			back = reader1.read(io.StringIO(buf.getvalue()))
 		except Exception as e:
 			raise Violation('archive_unreadable', f'archive cannot be read back: {type(e).__name__}: {str(e)[:300]} (params {res.params})', case)
 		deep_compare(res, back, case, 'archive (same session)')
@@ -328,7 +331,7 @@ def run_case(case, ctx):
 		if [d['query']['name'] for d in jdata['items']] != [it.input.label for it in res.items]:
 			raise Violation('json_label', 'labels in the JSON file differ from the results object', case)
 		try:
-			back_f = ResultsArchiveReader(db.session).read(apath)
+			back_f = reader1.read(apath)
 		except Exception as e:
 			raise Violation('archive_unreadable', f'archive file cannot be read back: {type(e).__name__}: {str(e)[:300]}', case)
 		deep_compare(res, back_f, case, 'archive (file)')
@@ -354,6 +357,14 @@ def run_case(case, ctx):
 		except Exception as e:
 			raise Violation('archive_unreadable', f'archive cannot be read back on a fresh session: {type(e).__name__}: {str(e)[:300]}', case)
 		deep_compare(res, back2, case, 'archive (fresh session)')
+		# ... and the first reader still works after a reader for another session was created and used
+		try:
+			back3 = reader1.read(io.StringIO(buf.getvalue()))
+		except Exception as e:
+			raise Violation('archive_unreadable', f'archive cannot be read back by a reader created before another reader: {type(e).__name__}: {str(e)[:300]}', case)
+		deep_compare(res, back3, case, 'archive (first reader, after others)')
+		if not (back3 == res):
+			raise Violation('archive_not_equal', 'archive read by the first reader after another reader was used does not compare == to the original', case)
 
 		special = any(any(ch in (x or '') for ch in ',"\n') or any(ord(ch) > 127 for ch in (x or ''))
 		              for it in res.items for x in (it.input.label, getattr(it.report_taxon, 'name', None),
